@@ -1,6 +1,8 @@
 import Beetswap.Spec.Wire
 import Beetswap.Spec.Limit
 import Beetswap.Proofs.CodecFrame
+import Beetswap.Proofs.CodecOverrun
+import Beetswap.Proofs.CodecOverrunCex
 /-!
 Helper lemmas and proofs for the codec layer (C08 codec part, C09, C10, C11).
 The statements used by `Props/` are at the end of this file; they must keep these exact
@@ -92,5 +94,55 @@ theorem needMore_bounded (buf : List Nat) (h : decode buf = .needMore) :
 theorem buffer_bounded (chunks : List (List Nat)) (hc : ∀ c ∈ chunks, c.length ≤ 8192) :
     (framedRead chunks).maxBuf ≤ maxMessageSize + 4 + 8192 :=
   buffer_bounded' chunks hc
+
+/-! ### The nesting pre-check of `Codec::decode` (repair of F5 / F6) -/
+
+/-- Every schema-valid encoding passes the pre-check (so the check rejects nothing an encoder
+conforming to the schema can produce). -/
+theorem check_valid_encoding (fs : List MsgFld) (h : MsgValid fs)
+    (hs : (serMessage fs).length ≤ maxMessageSize) :
+    checkNesting ((serMessage fs).length + 1) (serMessage fs) .message = true :=
+  check_serMessage fs _ h.1 (Nat.le_refl _)
+
+/-- A frame body that passes the pre-check never makes the parser read across the end of a
+slice: the unspecified class of the codec model is excluded.
+
+The hypothesis `hl` (the body is shorter than 4 GiB; `decode` only checks bodies of at most
+`maxMessageSize` = 4 MiB) is necessary: quick-protobuf reads the length of a nested message with
+`read_varint32`, i.e. modulo `2 ^ 32`, so on a body of `2 ^ 32` bytes or more the parser can cut a
+nested slice that is not the one the pre-check validated (`CodecOverrunCex.lean`:
+`checked_overruns_without_bound`). -/
+theorem checked_never_overruns (bs rest : List Nat) (hb : ∀ b ∈ bs, b < 256)
+    (hl : bs.length < 2 ^ 32)
+    (h : checkNesting (bs.length + 1) bs .message = true) :
+    parseMessage (bs ++ rest) bs.length ≠ PRes.overrun := by
+  rcases parseMessage_checked _ bs rest hl h with ⟨m, hm⟩ | hm <;> rw [hm] <;> simp
+
+/-- C08 for the codec: for EVERY byte string `decode` returns a message, asks for more bytes or
+fails the stream; the parser's unspecified class is unreachable. -/
+theorem decode_never_overruns (buf : List Nat) (hb : ∀ b ∈ buf, b < 256) : decode buf ≠ DecRes.overrun := by
+  unfold decode
+  split
+  · simp
+  · simp
+  · simp
+  · rename_i len rest hd
+    split
+    · simp
+    split
+    · simp
+    split
+    · simp
+    split
+    · simp
+    · rename_i hmax hlen hchk
+      simp only [Bool.not_eq_true, Bool.not_eq_false'] at hchk
+      have hlen' : len ≤ rest.length := by omega
+      have hl : (rest.take len).length = len := by rw [List.length_take]; omega
+      have hlt : (rest.take len).length < 2 ^ 32 := by
+        have := maxMessageSize_lt; omega
+      have := parseMessage_checked (len + 1) (rest.take len) (rest.drop len) hlt hchk
+      rw [List.take_append_drop, hl] at this
+      rcases this with ⟨m, hm⟩ | hm <;> rw [hm] <;> simp
 
 end Beetswap.Proofs.Codec
